@@ -43,7 +43,7 @@ ASSUMPTIONS = {"C17": [
     "agreement across 4 sampled environments per batch; not all 2^64 hash seeds",
 ]}
 EXPECTED_PROBES = {"C17": ["api:reconf_forest", "api:agglom", "api:divide", "api:reconf", "api:anneal", "api:temper", "api:tree_slice",
-                           "api:rgreedy", "api:rand_equation", "api:get_subtree", "api:greedy_span", "env:hashseed_varied", "probe:twice_on_same_object", "api:object_interleaved", "api:perverse_equation",
+                           "api:rgreedy", "api:rand_equation", "api:get_subtree", "api:greedy_span", "env:hashseed_varied", "probe:twice_on_same_object", "api:object_interleaved", "api:threads_interleaved", "api:perverse_equation",
                            "env:pool_order_varied"]}
 
 
@@ -77,6 +77,9 @@ def gen_cases(rng):
 
     def add(api, args=None, net=None, tree=False, pool=None, pre_sliced=None, twice=False):
         c = {"id": f"{len(cases)}-{api}", "api": api, "seed": rng.randrange(2 ** 31), "args": args or {}}
+        if rng.random() < 0.08:
+            # boundary seeds: 0 is falsy, 2**32-1 is the largest value numpy's legacy seeding accepts
+            c["seed"] = rng.choice([0, 0, 1, 2 ** 32 - 1])
         if twice:
             c["twice"] = True
             c["id"] += "-twice"
@@ -145,6 +148,43 @@ def gen_cases(rng):
     add("reusable_rgreedy_history", {"via": rng.choice(["search", "call"])}, mid(), )
     cases[-1]["net2"] = mid()
     add("seeded_optimizer_via_interface", {"other_seed": rng.randrange(2 ** 30)}, mid())
+    # seeded calls issued from several simulated threads at once (pre-empted at line granularity under the seeded
+    # baton scheduler, schedule taken from the environment's pool seed): each must return what it returns alone
+    for _ in range(2):
+        subs = []
+        fam = rng.choice(["partition", "partition", "tree", "mixed"])
+        for j in range(rng.randint(2, 3)):
+            f = fam if fam != "mixed" else rng.choice(["partition", "tree", "finder"])
+            mark = len(cases)
+            if f == "partition":
+                part = rng.choice(["labels", "labels", "kahypar"])
+                if rng.random() < 0.6:
+                    add("divide", {"partitioner": part, "kw": {"cutoff": rng.randint(2, 4), "parts": 2, "random_strength": rng.choice([0.01, 0.5])}}, _net(rng, 7, 11, plain=True))
+                else:
+                    add("agglom", {"partitioner": part, "kw": {"groupsize": rng.randint(2, 3), "random_strength": rng.choice([0.01, 0.5])}}, _net(rng, 7, 11, plain=True))
+            elif f == "tree":
+                k = rng.randrange(4)
+                if k == 0:
+                    add("tree_slice", {"kw": {"target_size": 2 ** rng.randint(1, 3), "temperature": 1.0}}, mid(), tree=True)
+                elif k == 1:
+                    add("reconf", {"kw": {"select": "random", "subtree_search": "random", "subtree_size": 3, "maxiter": rng.randint(2, 4)}}, mid(), tree=True)
+                elif k == 2:
+                    add("anneal", {"kw": {"tsteps": 2, "numiter": 2}}, mid(), tree=True)
+                else:
+                    add("temper", {"kw": {"tsteps": 2, "num_trees": 2, "numiter": 2}}, mid(), tree=True)
+            else:
+                k = rng.randrange(4)
+                if k == 0:
+                    add("rgreedy", {"max_repeats": rng.randint(2, 4)}, mid())
+                elif k == 1:
+                    add("random_opt", {}, mid())
+                elif k == 2:
+                    add("greedy_span", {"kw": {"start": "max", "temperature": 0.5}}, _net(rng, 6, 9, plain=True))
+                else:
+                    add("rand_equation", {"kw": {"n": rng.randint(3, 8), "reg": 3, "n_out": 1, "d_max": 4}})
+            subs.append(cases.pop(mark))
+        add("threads_interleaved", {"switch_p": rng.choice([0.02, 0.1, 0.3])})
+        cases[-1]["subs"] = subs
     add("rand_equation", {"kw": {"n": rng.randint(3, 12), "reg": rng.randint(2, 4), "n_out": rng.randint(0, 2),
                                  "n_hyper_in": rng.randint(0, 2), "n_hyper_out": rng.randint(0, 1), "d_max": rng.randint(2, 5)}})
     add("randreg_equation", {"kw": {"n": rng.choice([6, 8, 10]), "reg": 3}})
@@ -231,7 +271,7 @@ def run_case(prop, case):
             continue
         if ref.get(cid, "").startswith("EXC "):
             counters["case_raised:" + c["api"]] += 1
-        if (c.get("twice") or c["api"] in ("object_interleaved", "reusable_rgreedy_history", "seeded_optimizer_via_interface")) and not ref.get(cid, "").startswith("EXC "):
+        if (c.get("twice") or c["api"] in ("object_interleaved", "reusable_rgreedy_history", "seeded_optimizer_via_interface", "threads_interleaved")) and not ref.get(cid, "").startswith("EXC "):
             try:
                 same = json.loads(ref[cid]).get("same")
             except Exception:
